@@ -599,19 +599,24 @@ def analyzeRoundtrip (E : Ext) (k : AKind) (fl : Flips) (shape : List Nat) (a : 
   dropped; then dtype, shape and `set_zooms(header.get_zooms())`.  A header without `as_analyze_map` (MGH) only
   gives dtype, shape and zooms; `MGHHeader.from_header` (mghformat.py:144-155) ignores a foreign header. -/
 
+/-- `set_data_shape` on the fresh target header (analyze.py `set_data_shape`: `pixdim[ndims + 1:] = 1.0`): zooms of
+    axes the data does not have are reset to 1 -/
+def clipZooms (nd : Nat) (z : V3 Rat) : V3 Rat :=
+  ⟨if 0 < nd then z.x else 1, if 1 < nd then z.y else 1, if 2 < nd then z.z else 1⟩
+
 /-- NIfTI-1 / pair / NIfTI-2 header into another NIfTI flavour: all the affine fields exist on both sides;
     `rnd` is the cast into the target's field type (float32 for NIfTI-1, none for NIfTI-2) -/
 def NHdr.convertN (rnd : Rat → Rat) (h : NHdr) : NHdr :=
-  { h with srow := h.srow.map rnd, qfac := rnd h.qfac, pixdim := h.pixdim.map rnd, quat := h.quat.map rnd,
-           qoff := h.qoff.map rnd }
+  { h with srow := h.srow.map rnd, qfac := rnd h.qfac, pixdim := clipZooms h.shape.length (h.pixdim.map rnd),
+           quat := h.quat.map rnd, qoff := h.qoff.map rnd }
 
 /-- Analyze / SPM / MGH header into a NIfTI flavour: only `pixdim` arrives (no sform/qform fields in the source) -/
 def NHdr.ofZooms (rnd : Rat → Rat) (shape : List Nat) (z : V3 Rat) : NHdr :=
-  { defaultNHdr shape with pixdim := z.map rnd }
+  { defaultNHdr shape with pixdim := clipZooms shape.length (z.map rnd) }
 
 /-- any header into Analyze / SPM: `pixdim`, and `origin` only from SPM to SPM -/
 def AHdr.ofZooms (rnd : Rat → Rat) (shape : List Nat) (z : V3 Rat) (origin : V3 Int) : AHdr :=
-  ⟨shape, z.map rnd, origin⟩
+  ⟨shape, clipZooms shape.length (z.map rnd), origin⟩
 
 /-! ### MGH -/
 
